@@ -950,3 +950,103 @@ func TestZZVerifC06PipeTrace(t *testing.T) {
 		w.put(map[string]any{"lvl": "pipe", "tab": tab, "qs": qs, "table": rws})
 	}
 }
+
+// ---------------------------------------------------------------------- probe
+
+type zzC06ProbeIn struct {
+	Tab    []zzC06Entry `json:"tab"`
+	H      []string     `json:"h"`
+	QT     string       `json:"qt"`
+	Query  string       `json:"query"`
+	Want   []zzC06Out   `json:"want"`
+	Expect []struct {
+		Ask    [][]json.RawMessage `json:"ask"`
+		CNAME  []string            `json:"cname"`
+		IPs    []string            `json:"ips"`
+		FromUp []string            `json:"fromup"`
+	} `json:"expect"`
+}
+
+// TestZZVerifC06PipeProbe sends every input line's query alone, after setting
+// its table: used to reproduce a rejected trace observation in isolation and
+// by ./check C06 --replay.
+func TestZZVerifC06PipeProbe(t *testing.T) {
+	w := zzNewWriter(t, "VERIF_OUT")
+	defer w.close()
+
+	conc := zzC06NewConc(zzSeed())
+	z := zzC06NewSrv(t, conc)
+	hung := false
+	defer func() {
+		if !hung {
+			_ = z.s.Stop()
+		}
+	}()
+
+	i := 0
+	zzReadNDJSON(t, "VERIF_IN", func(line []byte) {
+		in := &zzC06ProbeIn{}
+		if err := json.Unmarshal(line, in); err != nil {
+			t.Fatalf("bad probe: %v", err)
+		}
+
+		i++
+		if hung {
+			w.put(map[string]any{"i": i, "admissible": false, "skipped": true})
+
+			return
+		}
+
+		if in.Query == "" {
+			in.Query = zzC06Name(in.H)
+		}
+
+		exp := []zzC06Obs{}
+		for j := range in.Want {
+			exp = append(exp, zzC06Serve(&in.Want[j], in.H, in.QT))
+		}
+
+		for _, e := range in.Expect {
+			o := zzC06Obs{
+				Ask: [][2]string{}, Rcode: "NOERROR", QOK: true, CNAME: zzC06Name(e.CNAME),
+				FromUp: zzC06Name(e.FromUp), IPs: append([]string{}, e.IPs...),
+			}
+			sort.Strings(o.IPs)
+			for _, a := range e.Ask {
+				var n []string
+				var qt string
+				if len(a) != 2 || json.Unmarshal(a[0], &n) != nil || json.Unmarshal(a[1], &qt) != nil {
+					t.Fatalf("bad ask in probe %d", i)
+				}
+
+				o.Ask = append(o.Ask, [2]string{zzC06Name(n), qt})
+			}
+
+			exp = append(exp, o)
+		}
+
+		rws := make([]zzC06RW, len(in.Tab))
+		for j := range in.Tab {
+			rws[j] = conc.rewrite(&in.Tab[j])
+		}
+
+		if err := z.setTable(rws); err != nil {
+			t.Fatalf("setting table: %v", err)
+		}
+
+		got, ok := z.query(in.Query, zzC06QTypes[in.QT], 15*time.Second)
+		if !ok {
+			hung = true
+			w.put(map[string]any{"i": i, "admissible": false, "hang": true, "got": got, "expected": exp})
+
+			return
+		}
+
+		adm := false
+		for j := range exp {
+			adm = adm || zzC06SameObs(&exp[j], &got, false)
+		}
+
+		w.put(map[string]any{"i": i, "admissible": adm, "hang": false, "got": got, "expected": exp})
+	})
+}
